@@ -16,13 +16,13 @@ pub mod fax {
     pub uninterp spec fn f_neg(a: f64) -> f64;
 
     #[verifier::external_body]
-    pub broadcast proof fn ax_add_req(a: f64, b: f64) ensures #[trigger] a.add_req(b) {}
+    pub broadcast proof fn ax_add_req(a: f64, b: f64) ensures #[trigger] vstd::std_specs::ops::AddSpec::add_req(a, b) {}
     #[verifier::external_body]
-    pub broadcast proof fn ax_sub_req(a: f64, b: f64) ensures #[trigger] a.sub_req(b) {}
+    pub broadcast proof fn ax_sub_req(a: f64, b: f64) ensures #[trigger] vstd::std_specs::ops::SubSpec::sub_req(a, b) {}
     #[verifier::external_body]
-    pub broadcast proof fn ax_mul_req(a: f64, b: f64) ensures #[trigger] a.mul_req(b) {}
+    pub broadcast proof fn ax_mul_req(a: f64, b: f64) ensures #[trigger] vstd::std_specs::ops::MulSpec::mul_req(a, b) {}
     #[verifier::external_body]
-    pub broadcast proof fn ax_div_req(a: f64, b: f64) ensures #[trigger] a.div_req(b) {}
+    pub broadcast proof fn ax_div_req(a: f64, b: f64) ensures #[trigger] vstd::std_specs::ops::DivSpec::div_req(a, b) {}
     #[verifier::external_body]
     pub broadcast proof fn ax_add_det(a: f64, b: f64, o: f64)
         requires #[trigger] add_ensures::<f64>(a, b, o) ensures o == f_add(a, b) {}
@@ -55,6 +55,8 @@ pub mod fax {
     #[verifier::external_body]
     pub fn neg_(x: f64) -> (r: f64) ensures r == f_neg(x) { -x }
 
+    // rejection tolerance of the calling context (uninterpreted; DESIGN §3.4)
+    pub uninterp spec fn may_reject() -> bool;
     // panic sites (rule R2): REJECT sites pass the validity predicate, DEAD sites pass `true`
     #[verifier::external_body]
     pub fn vpanic(Ghost(valid): Ghost<bool>) -> !
